@@ -382,8 +382,9 @@ def Flt.asFraction (x : Flt) (n : Nat) : Nat × Nat :=
   if x.isZero then (0, 1)
   else if x.isInf || x.isNan then (0, 0)
   else
-    let one := Flt.one x.sem false
-    let a := fracLoop one x.sem.rm (Nat.max n 2) x []
+    let wide := x.sem.increaseExponent (x.sem.logPrecision + 1)
+    let one := Flt.one wide false
+    let a := fracLoop one x.sem.rm (Nat.max n 2) (x.cast wide) []
     match a with
     | a0 :: a1 :: rest =>
       let p : Nat × Nat := (1 + a0 * a1, a0)
